@@ -1,4 +1,5 @@
-(* C11 — third pass and tail rules on a text buffer; assembly of the theorem for `plain`. *)
+(* C11 — third pass and tail rules on a text buffer (repaired code: no early return, the
+   trailing-dot rule updates the length, the trailing dot-dot rule checks for a whole entry). *)
 From Coq Require Import ZArith List Bool Lia ZifyBool.
 From Zix Require Import PathNormSpec PathNormModel PathNormProofsSpec PathNormProofsModel PathNormProofsDD.
 Import ListNotations.
@@ -11,39 +12,11 @@ Proof.
   f_equal. apply IH. apply (Forall_inv_tail H).
 Qed.
 
-(* ---- the tail rules on  T ++ NUL :: junk ---------------------------------------------------------- *)
-Definition ftxt (T : list Z) : list Z :=
-  match rev T with
-  | [] => [DOT]
-  | [d] => T
-  | d :: e :: t' =>
-      if (e =? SEP) && (d =? DOT) then rev (e :: t')
-      else match t' with
-           | f :: _ => if (f =? DOT) && (e =? DOT) && (d =? SEP) then rev (e :: t') else T
-           | [] => T
-           end
-  end.
-
-Lemma get_last1 : forall A d junk, get ((A ++ [d]) ++ 0 :: junk) (Z.of_nat (length (A ++ [d])) - 1) = d.
+Lemma get_pre : forall pre X junk j, (j <= length X)%nat ->
+  get ((pre ++ X) ++ 0 :: junk) (Z.of_nat (length pre) + Z.of_nat j) = nth j X 0.
 Proof.
-  intros. replace (Z.of_nat (length (A ++ [d])) - 1) with (Z.of_nat (length A)) by (rewrite app_length; cbn [length]; lia).
-  rewrite get_txt_nat by (rewrite app_length; lia). rewrite app_nth2 by lia.
-  rewrite Nat.sub_diag. reflexivity.
-Qed.
-
-Lemma get_last2 : forall A e d junk, get ((A ++ [e; d]) ++ 0 :: junk) (Z.of_nat (length (A ++ [e; d])) - 2) = e.
-Proof.
-  intros. replace (Z.of_nat (length (A ++ [e; d])) - 2) with (Z.of_nat (length A)) by (rewrite app_length; cbn [length]; lia).
-  rewrite get_txt_nat by (rewrite app_length; lia). rewrite app_nth2 by lia.
-  rewrite Nat.sub_diag. reflexivity.
-Qed.
-
-Lemma get_last3 : forall A f e d junk,
-  get ((A ++ [f; e; d]) ++ 0 :: junk) (Z.of_nat (length (A ++ [f; e; d])) - 3) = f.
-Proof.
-  intros. replace (Z.of_nat (length (A ++ [f; e; d])) - 3) with (Z.of_nat (length A)) by (rewrite app_length; cbn [length]; lia).
-  rewrite get_txt_nat by (rewrite app_length; lia). rewrite app_nth2 by lia.
-  rewrite Nat.sub_diag. reflexivity.
+  intros pre X junk j H. replace (Z.of_nat (length pre) + Z.of_nat j) with (Z.of_nat (length pre + j)) by lia.
+  rewrite get_txt_nat by (rewrite app_length; lia). apply app_nth2_plus.
 Qed.
 
 Lemma set_last_nul : forall A d junk,
@@ -68,77 +41,123 @@ Lemma tail_final_ne : forall T j junk, nonzero T -> T <> [] ->
   cstr (if get (T ++ 0 :: j :: junk) 0 =? 0 then set (set (T ++ 0 :: j :: junk) 0 DOT) 1 0 else T ++ 0 :: j :: junk) = T.
 Proof. intros T j junk H N. rewrite tail_final by exact H. destruct T; [congruence|reflexivity]. Qed.
 
-Lemma get_last1_2 : forall A e d junk, get ((A ++ [e; d]) ++ 0 :: junk) (Z.of_nat (length (A ++ [e; d])) - 1) = d.
-Proof. intros. replace (A ++ [e; d]) with ((A ++ [e]) ++ [d]) by (rewrite <- app_assoc; reflexivity). apply get_last1. Qed.
+(* ---- the tail rules on  T ++ NUL :: junk ---------------------------------------------------------- *)
+Definition rule1 (T : list Z) : list Z :=
+  match rev T with
+  | d :: e :: t' => if (e =? SEP) && (d =? DOT) then rev (e :: t') else T
+  | _ => T
+  end.
 
-Lemma get_last1_3 : forall A f e d junk, get ((A ++ [f; e; d]) ++ 0 :: junk) (Z.of_nat (length (A ++ [f; e; d])) - 1) = d.
-Proof. intros. replace (A ++ [f; e; d]) with ((A ++ [f; e]) ++ [d]) by (rewrite <- app_assoc; reflexivity). apply get_last1. Qed.
+Definition rule2 (T : list Z) : list Z :=
+  match rev T with
+  | d :: e :: f :: rest =>
+      if (f =? DOT) && (e =? DOT) && (d =? SEP) && (match rest with [] => true | g :: _ => g =? SEP end)
+      then rev (e :: f :: rest) else T
+  | _ => T
+  end.
 
-Lemma get_last2_3 : forall A f e d junk, get ((A ++ [f; e; d]) ++ 0 :: junk) (Z.of_nat (length (A ++ [f; e; d])) - 2) = e.
-Proof. intros. replace (A ++ [f; e; d]) with ((A ++ [f]) ++ [e; d]) by (rewrite <- app_assoc; reflexivity). apply get_last2. Qed.
+Definition rule3 (T : list Z) : list Z := match T with [] => [DOT] | _ => T end.
 
-Lemma set_last_nul_2 : forall A e d junk,
-  set ((A ++ [e; d]) ++ 0 :: junk) (Z.of_nat (length (A ++ [e; d])) - 1) 0 = (A ++ [e]) ++ 0 :: 0 :: junk.
-Proof. intros. replace (A ++ [e; d]) with ((A ++ [e]) ++ [d]) by (rewrite <- app_assoc; reflexivity). apply set_last_nul. Qed.
+Definition ftxt (T : list Z) : list Z := rule3 (rule2 (rule1 T)).
+
+Definition tail23 (r : Z) (buf1 : list Z) : list Z :=
+  let buf2 := if (r >=? 3) && (get buf1 (r - 3) =? DOT) && (get buf1 (r - 2) =? DOT) &&
+                 is_sep (get buf1 (r - 1)) && ((r =? 3) || is_sep (get buf1 (r - 4)))
+              then set buf1 (r - 1) 0 else buf1 in
+  if get buf2 0 =? 0 then set (set buf2 0 DOT) 1 0 else buf2.
+
+Lemma tail_rules_unfold : forall r0 buf,
+  tail_rules r0 buf =
+  if (r0 >=? 2) && is_sep (get buf (r0 - 2)) && (get buf (r0 - 1) =? DOT)
+  then tail23 (r0 - 1) (set buf (r0 - 1) 0) else tail23 r0 buf.
+Proof.
+  intros. unfold tail_rules, tail23.
+  destruct ((r0 >=? 2) && is_sep (get buf (r0 - 2)) && (get buf (r0 - 1) =? DOT)); reflexivity.
+Qed.
+
+Ltac idx A S k j :=
+  replace (Z.of_nat (length (A ++ S)) - k) with (Z.of_nat (length A) + Z.of_nat j)
+    by (rewrite app_length; cbn [length]; lia).
+
+Lemma rule3_cstr : forall T j junk, nonzero T ->
+  cstr (if get (T ++ 0 :: j :: junk) 0 =? 0 then set (set (T ++ 0 :: j :: junk) 0 DOT) 1 0 else T ++ 0 :: j :: junk)
+  = rule3 T.
+Proof. intros. unfold rule3. apply tail_final. assumption. Qed.
+
+Lemma tail23_txt : forall T j junk, nonzero T ->
+  cstr (tail23 (Z.of_nat (length T)) (T ++ 0 :: j :: junk)) = rule3 (rule2 T).
+Proof.
+  intros T j junk HZ. unfold tail23, rule2, is_sep.
+  destruct T as [|d T1] using rev_ind.
+  { cbn [rev app length]. match goal with |- context [?a >=? 3] => change (a >=? 3) with false end.
+    cbn [andb]. apply (rule3_cstr [] j junk). constructor. }
+  clear IHT1. destruct T1 as [|e T2] using rev_ind.
+  { cbn [rev app length]. match goal with |- context [?a >=? 3] => change (a >=? 3) with false end.
+    cbn [andb]. apply (rule3_cstr [d] j junk). exact HZ. }
+  clear IHT2. destruct T2 as [|f T3] using rev_ind.
+  { cbn [rev app length]. match goal with |- context [?a >=? 3] => change (a >=? 3) with false end.
+    cbn [andb]. apply (rule3_cstr [e; d] j junk). exact HZ. }
+  clear IHT3.
+  assert (E3 : ((T3 ++ [f]) ++ [e]) ++ [d] = T3 ++ [f; e; d]) by (rewrite <- !app_assoc; reflexivity).
+  rewrite E3 in *. rewrite rev_app_distr. cbn [rev app].
+  replace (Z.of_nat (length (T3 ++ [f; e; d])) >=? 3) with true by (rewrite app_length; cbn [length]; lia).
+  cbn [andb].
+  idx T3 [f; e; d] 3 0%nat. idx T3 [f; e; d] 2 1%nat. idx T3 [f; e; d] 1 2%nat.
+  rewrite !get_pre by (cbn [length]; lia). cbn [nth].
+  assert (Ec : ((Z.of_nat (length (T3 ++ [f; e; d])) =? 3) ||
+                (get ((T3 ++ [f; e; d]) ++ 0 :: j :: junk) (Z.of_nat (length (T3 ++ [f; e; d])) - 4) =? SEP)) =
+               match rev T3 with [] => true | g :: _ => g =? SEP end).
+  { destruct T3 as [|g T4] using rev_ind.
+    - reflexivity.
+    - clear IHT4. rewrite rev_app_distr. cbn [rev app].
+      replace ((T4 ++ [g]) ++ [f; e; d]) with (T4 ++ [g; f; e; d]) by (rewrite <- app_assoc; reflexivity).
+      replace (Z.of_nat (length (T4 ++ [g; f; e; d])) =? 3) with false by (rewrite app_length; cbn [length]; lia).
+      idx T4 [g; f; e; d] 4 0%nat. rewrite get_pre by (cbn [length]; lia). reflexivity. }
+  rewrite Ec.
+  destruct ((f =? DOT) && (e =? DOT) && (d =? SEP) && match rev T3 with [] => true | g :: _ => g =? SEP end) eqn:R2.
+  - replace (Z.of_nat (length T3) + Z.of_nat 2) with (Z.of_nat (length (T3 ++ [f; e; d])) - 1)
+      by (rewrite app_length; cbn [length]; lia).
+    replace (T3 ++ [f; e; d]) with ((T3 ++ [f; e]) ++ [d]) by (rewrite <- app_assoc; reflexivity).
+    rewrite set_last_nul. rewrite rule3_cstr.
+    + cbn [rev]. rewrite rev_involutive, <- app_assoc. reflexivity.
+    + unfold nonzero in *. replace (T3 ++ [f; e; d]) with ((T3 ++ [f; e]) ++ [d]) in HZ by (rewrite <- app_assoc; reflexivity).
+      apply Forall_app in HZ. apply HZ.
+  - apply rule3_cstr. exact HZ.
+Qed.
 
 Lemma tail_txt : forall T j junk, nonzero T ->
   cstr (tail_rules (Z.of_nat (length T)) (T ++ 0 :: j :: junk)) = ftxt T.
 Proof.
-  intros T j junk HZ. unfold tail_rules, ftxt, is_sep.
+  intros T j junk HZ. rewrite tail_rules_unfold. unfold ftxt, rule1, is_sep.
   destruct T as [|d T1] using rev_ind.
-  - cbn [rev]. cbn [length Z.of_nat Z.geb Z.compare andb]. apply (tail_final [] j junk). constructor.
-  - clear IHT1. rewrite rev_app_distr. cbn [rev app].
-    destruct T1 as [|e T2] using rev_ind.
-    + cbn [rev app]. cbn [length app Z.of_nat Pos.of_succ_nat Z.geb Z.compare andb].
-      apply (tail_final [d] j junk). exact HZ.
-    + clear IHT2. rewrite rev_app_distr. cbn [rev app].
-      assert (E2 : (T2 ++ [e]) ++ [d] = T2 ++ [e; d]) by (rewrite <- app_assoc; reflexivity).
-      rewrite E2 in *.
-      replace (Z.of_nat (length (T2 ++ [e; d])) >=? 2) with true by (rewrite app_length; cbn [length]; lia).
-      cbn [andb]. rewrite get_last2, get_last1_2.
-      destruct ((e =? SEP) && (d =? DOT)) eqn:R1.
-      * (* rule 1: trailing "/." *)
-        rewrite set_last_nul_2.
-        assert (G : get ((T2 ++ [e]) ++ 0 :: 0 :: j :: junk) (Z.of_nat (length (T2 ++ [e; d])) - 1) = 0).
-        { replace (Z.of_nat (length (T2 ++ [e; d])) - 1) with (Z.of_nat (length (T2 ++ [e])))
-            by (rewrite !app_length; cbn [length]; lia).
-          rewrite get_txt_nat by lia. apply nth_overflow. lia. }
-        rewrite G. replace (0 =? SEP) with false by reflexivity. rewrite !andb_false_r.
-        rewrite (tail_final (T2 ++ [e]) 0 (j :: junk)).
-        -- cbn [rev]. rewrite rev_involutive. destruct (T2 ++ [e]) eqn:E; [destruct T2; discriminate|reflexivity].
-        -- unfold nonzero in *. rewrite Forall_app in *. destruct HZ as [H1 H2]. split; [exact H1|].
-           inversion H2; subst. constructor; [assumption|constructor].
-      * (* rule 1 does not fire *)
-        assert (R2 : (Z.of_nat (length (T2 ++ [e; d])) >=? 3) &&
-                     (get ((T2 ++ [e; d]) ++ 0 :: j :: junk) (Z.of_nat (length (T2 ++ [e; d])) - 3) =? DOT) &&
-                     (get ((T2 ++ [e; d]) ++ 0 :: j :: junk) (Z.of_nat (length (T2 ++ [e; d])) - 2) =? DOT) &&
-                     (get ((T2 ++ [e; d]) ++ 0 :: j :: junk) (Z.of_nat (length (T2 ++ [e; d])) - 1) =? SEP) =
-                     match rev T2 with f :: _ => (f =? DOT) && (e =? DOT) && (d =? SEP) | [] => false end).
-        { destruct T2 as [|f T3] using rev_ind.
-          - cbn [rev]. cbn [length app Z.of_nat Pos.of_succ_nat Z.geb Z.compare andb]. reflexivity.
-          - clear IHT3. rewrite rev_app_distr. cbn [rev app].
-            assert (E3 : (T3 ++ [f]) ++ [e; d] = T3 ++ [f; e; d]) by (rewrite <- app_assoc; reflexivity).
-            rewrite E3. rewrite get_last3, get_last2_3, get_last1_3.
-            replace (Z.of_nat (length (T3 ++ [f; e; d])) >=? 3) with true by (rewrite app_length; cbn [length]; lia).
-            reflexivity. }
-        rewrite R2.
-        destruct (rev T2) as [|f t''] eqn:ER.
-        -- apply (tail_final_ne (T2 ++ [e; d]) j junk); [exact HZ|destruct T2; discriminate].
-        -- destruct ((f =? DOT) && (e =? DOT) && (d =? SEP)) eqn:R3.
-           ++ rewrite set_last_nul_2.
-              rewrite (tail_final (T2 ++ [e]) 0 (j :: junk)).
-              ** rewrite <- ER, rev_involutive. destruct (T2 ++ [e]) eqn:E; [destruct T2; discriminate|reflexivity].
-              ** unfold nonzero in *. rewrite Forall_app in *. destruct HZ as [H1 H2]. split; [exact H1|].
-                 inversion H2; subst. constructor; [assumption|constructor].
-           ++ apply (tail_final_ne (T2 ++ [e; d]) j junk); [exact HZ|destruct T2; discriminate].
+  { cbn [rev app length]. match goal with |- context [?a >=? 2] => change (a >=? 2) with false end.
+    cbn [andb]. apply (tail23_txt [] j junk). constructor. }
+  clear IHT1. destruct T1 as [|e T2] using rev_ind.
+  { cbn [rev app length]. match goal with |- context [?a >=? 2] => change (a >=? 2) with false end.
+    cbn [andb]. apply (tail23_txt [d] j junk). exact HZ. }
+  clear IHT2.
+  assert (E2 : (T2 ++ [e]) ++ [d] = T2 ++ [e; d]) by (rewrite <- app_assoc; reflexivity).
+  rewrite E2 in *. rewrite rev_app_distr. cbn [rev app].
+  replace (Z.of_nat (length (T2 ++ [e; d])) >=? 2) with true by (rewrite app_length; cbn [length]; lia).
+  cbn [andb].
+  idx T2 [e; d] 2 0%nat. idx T2 [e; d] 1 1%nat.
+  rewrite !get_pre by (cbn [length]; lia). cbn [nth].
+  destruct ((e =? SEP) && (d =? DOT)) eqn:R1.
+  - replace (Z.of_nat (length T2) + Z.of_nat 1) with (Z.of_nat (length (T2 ++ [e; d])) - 1)
+      by (rewrite app_length; cbn [length]; lia).
+    rewrite <- E2. rewrite set_last_nul.
+    replace (Z.of_nat (length ((T2 ++ [e]) ++ [d])) - 1) with (Z.of_nat (length (T2 ++ [e])))
+      by (rewrite !app_length; cbn [length]; lia).
+    rewrite (tail23_txt (T2 ++ [e]) 0 (j :: junk)).
+    + cbn [rev]. rewrite rev_involutive. reflexivity.
+    + unfold nonzero in *. rewrite <- E2 in HZ. apply Forall_app in HZ. apply HZ.
+  - apply tail23_txt. exact HZ.
 Qed.
 
 (* ---- third pass: dot-dot fields directly under the root ------------------------------------------- *)
-Lemma get_pre : forall pre X junk j, (j <= length X)%nat ->
-  get ((pre ++ X) ++ 0 :: junk) (Z.of_nat (length pre) + Z.of_nat j) = nth j X 0.
+Lemma name_single : forall y, nm [y] -> y <> DOT.
 Proof.
-  intros pre X junk j H. replace (Z.of_nat (length pre) + Z.of_nat j) with (Z.of_nat (length pre + j)) by lia.
-  rewrite get_txt_nat by (rewrite app_length; lia). apply app_nth2_plus.
+  intros y (_ & H) ->. discriminate.
 Qed.
 
 Lemma nm_first_not_dd : forall n rest junk pre, nm n -> nonzero rest -> (rest = [] \/ hd 0 rest = SEP) ->
@@ -151,8 +170,9 @@ Proof.
   replace (Z.of_nat (length pre)) with (Z.of_nat (length pre) + Z.of_nat 0) at 1 by lia.
   change 1 with (Z.of_nat 1). change 2 with (Z.of_nat 2).
   destruct n as [|a [|b [|c n']]]; [congruence| | |].
-  - rewrite get_pre by (cbn; lia). cbn [nth app]. unfold isname in Hn. cbn in Hn. rewrite orb_false_r in Hn.
-    unfold nsd in Hn. apply andb_true_iff in Hn as [_ Hn]. apply negb_true_iff in Hn. rewrite Hn. reflexivity.
+  - rewrite get_pre by (cbn; lia). cbn [nth app].
+    assert (Ha : a <> DOT) by (apply name_single; repeat split; assumption).
+    replace (a =? DOT) with false by lia. reflexivity.
   - rewrite !get_pre by (cbn [length app]; lia). cbn [nth app].
     destruct ((a =? DOT) && (b =? DOT)) eqn:E; [|reflexivity].
     apply andb_true_iff in E as [Ea Eb]. apply Z.eqb_eq in Ea, Eb. subst. discriminate.
@@ -162,8 +182,12 @@ Proof.
     replace (c =? SEP) with false by lia. replace (c =? 0) with false by lia. rewrite andb_false_r. reflexivity.
 Qed.
 
+(* what can follow the leading ".." fields *)
+Definition Xok (X : list elem) : Prop :=
+  nonzero (join_elems X) /\ (X = [] \/ X = [[]] \/ X = [[DOT]] \/ exists n X', X = n :: X' /\ nm n).
+
 Lemma root_scan_D : forall D pre X junk fuel, allDD D ->
-  (X = [] \/ X = [[]] \/ exists n X', X = n :: X' /\ nm n /\ nonzero (join_elems X)) ->
+  Xok X ->
   (length D < fuel)%nat ->
   root_dotdot_scan fuel ((pre ++ join_elems (D ++ X)) ++ 0 :: junk)
                    (Z.of_nat (length (pre ++ join_elems (D ++ X)))) (Z.of_nat (length pre))
@@ -173,9 +197,11 @@ Proof.
   - (* nothing (more) to strip *)
     destruct fuel as [|f]; [lia|]. cbn [app root_dotdot_scan].
     replace (length (pre ++ join_elems X) - length (join_elems X))%nat with (length pre) by (rewrite app_length; lia).
-    destruct HX as [-> | [-> | (n & X' & -> & Hn & Hz)]].
+    destruct HX as (Hz & [-> | [-> | [-> | (n & X' & -> & Hn)]]]).
     + cbn [join_elems]. rewrite app_nil_r. replace (Z.of_nat (length pre) <? Z.of_nat (length pre)) with false by lia. reflexivity.
     + cbn [join_elems]. rewrite app_nil_r. replace (Z.of_nat (length pre) <? Z.of_nat (length pre)) with false by lia. reflexivity.
+    + cbn [join_elems]. change 1 with (Z.of_nat 1). rewrite (get_pre pre [DOT] junk 1) by (cbn; lia). cbn [nth].
+      replace (0 =? DOT) with false by reflexivity. rewrite !andb_false_r. reflexivity.
     + assert (EJ : exists rest, join_elems (n :: X') = n ++ rest /\ nonzero rest /\ (rest = [] \/ hd 0 rest = SEP)).
       { destruct X' as [|x X''].
         - exists []. rewrite app_nil_r. repeat split; [constructor|left; reflexivity].
@@ -237,20 +263,20 @@ Proof. intros; subst. apply firstn_exact. Qed.
 Lemma skipn_exact : forall (A Bx : list Z) n, n = length A -> skipn n (A ++ Bx) = Bx.
 Proof. intros; subst. rewrite skipn_app, skipn_all, Nat.sub_diag. reflexivity. Qed.
 
-(* the early return of the third pass: the leading ".." fields are cut out, the tail rules skipped *)
-Lemma pass34_root_dd : forall d D X j junk, allDD (d :: D) ->
-  (X = [] \/ X = [[]] \/ exists n X', X = n :: X' /\ nm n /\ nonzero (join_elems X)) ->
+(* the third pass cuts the leading ".." fields out and then falls through to the tail rules *)
+Lemma pass34_root_dd : forall d D X j junk, allDD (d :: D) -> Xok X ->
   Z.of_nat (length (SEP :: join_elems ((d :: D) ++ X)) + 2 + length junk) < W64 ->
   exists bufF, pass34 1 (Z.of_nat (length (SEP :: join_elems ((d :: D) ++ X))))
                       ((SEP :: join_elems ((d :: D) ++ X)) ++ 0 :: j :: junk) = Some bufF /\
-               cstr bufF = SEP :: join_elems X.
+               cstr bufF = ftxt (SEP :: join_elems X).
 Proof.
   intros d D X j junk HD HX HW.
   set (T := SEP :: join_elems ((d :: D) ++ X)) in *.
   assert (EJ : exists mid, join_elems ((d :: D) ++ X) = mid ++ join_elems X /\ (2 <= length mid)%nat).
-  { inversion HD; subst. destruct HX as [-> | [-> | (n & X' & -> & _)]].
+  { inversion HD; subst. destruct HX as (_ & [-> | [-> | [-> | (n & X' & -> & _)]]]).
     - exists (join_elems (DD :: D)). rewrite !app_nil_r. split; [reflexivity|].
       pose proof (dd_join_len (DD :: D) [] HD) as L. rewrite app_nil_r in L. cbn [length] in L. lia.
+    - exists (body (DD :: D)). rewrite join_snoc. split; [reflexivity|]. rewrite body_length_cons. cbn. lia.
     - exists (body (DD :: D)). rewrite join_snoc. split; [reflexivity|]. rewrite body_length_cons. cbn. lia.
     - exists (body (DD :: D)). rewrite join_app_body by discriminate. split; [reflexivity|]. rewrite body_length_cons. cbn. lia. }
   destruct EJ as (mid & EJ & Hmid).
@@ -265,6 +291,7 @@ Proof.
     rewrite Q.
     - f_equal. f_equal. lia.
     - pose proof (dd_join_len (d :: D) X HD) as L. rewrite app_length. unfold T. cbn [length] in *. lia. }
+  destruct HX as (HXz & _).
   unfold pass34. change (negb (1 =? 0)) with true. cbn [andb].
   assert (G0 : get (T ++ 0 :: j :: junk) (1 - 1) = SEP) by reflexivity.
   rewrite G0. change (is_sep SEP) with true. cbv iota. rewrite Hscan.
@@ -274,10 +301,13 @@ Proof.
     cbn [length] in Hst.
     replace (Z.of_nat st <? Z.of_nat (length T)) with false by lia.
     eexists. split; [reflexivity|].
-    destruct mid as [|m0 mid']; [cbn in Hmid; lia|].
+    destruct mid as [|m0 [|m1 mid']]; [cbn in Hmid; lia|cbn in Hmid; lia|].
     rewrite ET. rewrite app_nil_r. cbn [app].
-    change (SEP :: m0 :: mid' ++ 0 :: j :: junk) with ([SEP] ++ m0 :: (mid' ++ 0 :: j :: junk)).
-    change 1 with (Z.of_nat (length [SEP])). rewrite set_mid. reflexivity.
+    change (SEP :: m0 :: m1 :: mid' ++ 0 :: j :: junk) with ([SEP] ++ m0 :: (m1 :: mid' ++ 0 :: j :: junk)).
+    change 1 with (Z.of_nat (length [SEP])). rewrite set_mid.
+    destruct (mid' ++ 0 :: j :: junk) as [|y ys] eqn:E; [destruct mid'; discriminate|].
+    change (Z.of_nat (length [SEP])) with (Z.of_nat (length [SEP])).
+    apply (tail_txt [SEP] m1 (y :: ys)). repeat constructor. discriminate.
   - replace (Z.of_nat st <? Z.of_nat (length T)) with true by (cbn [length] in Hst; lia).
     eexists. split; [reflexivity|].
     assert (Esz1 : sz (Z.of_nat (length T) - Z.of_nat st) = Z.of_nat (length (c :: JX))).
@@ -286,8 +316,8 @@ Proof.
     { rewrite (sz_small (1 + Z.of_nat (length T))) by lia. rewrite sz_small by (cbn [length app] in *; lia).
       cbn [length app] in *. lia. }
     rewrite Esz1, Esz2.
-    assert (Emm : exists x rest', memmove (T ++ 0 :: j :: junk) 1 (Z.of_nat st) (Z.of_nat (length (c :: JX)))
-                   = ([SEP] ++ c :: JX) ++ x :: rest').
+    assert (Emm : exists x y rest', memmove (T ++ 0 :: j :: junk) 1 (Z.of_nat st) (Z.of_nat (length (c :: JX)))
+                   = ([SEP] ++ c :: JX) ++ x :: y :: rest').
     { unfold memmove. rewrite !Nat2Z.id. change (Z.to_nat 1) with 1%nat.
       assert (Esk : skipn st (T ++ 0 :: j :: junk) = (c :: JX) ++ 0 :: j :: junk).
       { rewrite ET, <- app_assoc. apply skipn_exact. reflexivity. }
@@ -295,12 +325,10 @@ Proof.
       remember (skipn (1 + length (c :: JX)) (T ++ 0 :: j :: junk)) as rest eqn:Er.
       assert (Lr : length rest = (length T + 2 + length junk - (1 + length (c :: JX)))%nat).
       { rewrite Er, skipn_length, app_length. cbn [length]. lia. }
-      destruct rest as [|x rest']; [cbn [length] in *; lia|].
-      exists x, rest'. unfold T. cbn [app firstn]. reflexivity. }
-    destruct Emm as (x & rest' & ->). rewrite set_mid.
-    rewrite cstr_txt; [reflexivity|].
-    destruct HX as [-> | [-> | (n & X' & -> & _ & Hz)]]; [discriminate EX|discriminate EX|].
-    constructor; [discriminate|exact Hz].
+      destruct rest as [|x [|y rest']]; [cbn [length] in *; lia|cbn [length] in *; lia|].
+      exists x, y, rest'. unfold T. cbn [app firstn]. reflexivity. }
+    destruct Emm as (x & y & rest' & ->). rewrite set_mid.
+    apply (tail_txt ([SEP] ++ c :: JX) y rest'). constructor; [discriminate|exact HXz].
 Qed.
 
 (* ---- the spec machine on  dot-dots ++ names ++ tail -------------------------------------------------- *)
@@ -341,11 +369,13 @@ Qed.
 Lemma allDD_forallb : forall D, allDD D -> forallb is_dotdot D = true.
 Proof. induction D as [|d D IH]; intro H; [reflexivity|]. inversion H; subst. cbn. apply IH. assumption. Qed.
 
-Lemma machine_dn : forall R D N tl, allDD D -> allnm N -> (tl = [] \/ tl = [[]]) ->
+Definition tln (tl : list elem) : list elem := match tl with [] => [] | _ => [[]] end.
+
+Lemma machine_dn : forall R D N tl, allDD D -> allnm N -> tlok tl ->
   normal_elems R (D ++ N ++ tl) =
   match N with
   | [] => if R then [] else match D with [] => [[DOT]] | _ => D end
-  | _ => (if R then [] else D) ++ N ++ tl
+  | _ => (if R then [] else D) ++ N ++ tln tl
   end.
 Proof.
   intros R D N tl HD HN Htl. unfold normal_elems. rewrite !fold_left_app.
@@ -357,7 +387,7 @@ Proof.
   rewrite fold_names by exact HN.
   destruct N as [|n0 N0].
   - cbn [rev app]. assert (Eo : fst (fold_left (norm_step R) tl (oD, tD)) = oD).
-    { destruct Htl as [-> | ->]; reflexivity. }
+    { destruct Htl as [-> | [-> | ->]]; reflexivity. }
     destruct (fold_left (norm_step R) tl (oD, tD)) as [o2 t2]. cbn [fst] in Eo. subst o2.
     unfold norm_finish. rewrite EoD. destruct R; [reflexivity|].
     destruct D as [|d D']; [reflexivity|]. inversion HD; subst.
@@ -367,114 +397,161 @@ Proof.
     pose proof (nm_proper n Hn) as P.
     assert (E2 : fold_left (norm_step R) tl (rev (N' ++ [n]) ++ oD, false) =
                  (rev (N' ++ [n]) ++ oD, match tl with [] => false | _ => true end)).
-    { destruct Htl as [-> | ->]; reflexivity. }
+    { destruct Htl as [-> | [-> | ->]]; reflexivity. }
     destruct (N' ++ [n]) eqn:E0; [destruct N'; discriminate|]. rewrite <- E0 in *. rewrite E2.
     unfold norm_finish. rewrite rev_app_distr. cbn [rev app]. rewrite (proper_not_dotdot n P).
     assert (Erev : rev (rev N' ++ oD) = (if R then [] else D) ++ N').
     { rewrite rev_app_distr, rev_involutive, EoD. destruct R; [reflexivity|]. rewrite rev_involutive. reflexivity. }
-    rewrite Erev. destruct Htl as [-> | ->]; rewrite <- ?app_assoc; rewrite ?app_nil_r; reflexivity.
+    rewrite Erev. destruct Htl as [-> | [-> | ->]]; cbn [tln]; rewrite <- ?app_assoc; rewrite ?app_nil_r; reflexivity.
 Qed.
+
+Lemma machine_drop_dd : forall D N tl, allDD D -> allnm N -> tlok tl ->
+  normal_elems true (D ++ N ++ tl) = normal_elems true ([] ++ N ++ tl).
+Proof.
+  intros D N tl HD HN Htl. rewrite !machine_dn by (assumption || constructor). destruct N; reflexivity.
+Qed.
+
+
 
 (* ---- the tail rules on the text after the second pass ------------------------------------------------ *)
-Lemma ftxt_keep1 : forall A y, y <> SEP -> (forall A' e, A = A' ++ [e] -> ~ (e = SEP /\ y = DOT)) ->
-  ftxt (A ++ [y]) = A ++ [y].
+Lemma rule1_fire : forall A, rule1 (A ++ [SEP; DOT]) = A ++ [SEP].
 Proof.
-  intros A y Hy Hc. unfold ftxt. rewrite rev_app_distr. cbn [rev app].
+  intro A. unfold rule1. rewrite rev_app_distr. cbn [rev app]. rewrite !Z.eqb_refl. cbn [andb].
+  rewrite rev_involutive. reflexivity.
+Qed.
+
+Lemma rule1_keep : forall A y, (forall A' e, A = A' ++ [e] -> ~ (e = SEP /\ y = DOT)) ->
+  rule1 (A ++ [y]) = A ++ [y].
+Proof.
+  intros A y Hc. unfold rule1. rewrite rev_app_distr. cbn [rev app].
   destruct (rev A) as [|e t'] eqn:E; [reflexivity|].
   assert (EA : A = rev t' ++ [e]) by (rewrite <- (rev_involutive A), E; reflexivity).
-  destruct ((e =? SEP) && (y =? DOT)) eqn:R1.
-  - exfalso. apply (Hc (rev t') e EA). lia.
-  - destruct t' as [|f t'']; [reflexivity|]. replace (y =? SEP) with false by lia. rewrite andb_false_r. reflexivity.
+  destruct ((e =? SEP) && (y =? DOT)) eqn:R1; [|reflexivity].
+  exfalso. apply (Hc (rev t') e EA). lia.
 Qed.
 
-Lemma ftxt_keep_sep : forall A y, y <> SEP -> (forall A' f, A = A' ++ [f] -> ~ (f = DOT /\ y = DOT)) ->
-  ftxt (A ++ [y; SEP]) = A ++ [y; SEP].
+Lemma rule2_fire : forall A, (A = [] \/ exists A', A = A' ++ [SEP]) ->
+  rule2 (A ++ [DOT; DOT; SEP]) = A ++ [DOT; DOT].
 Proof.
-  intros A y Hy Hc. unfold ftxt. rewrite rev_app_distr. cbn [rev app].
-  replace (y =? SEP) with false by lia. cbn [andb].
-  destruct (rev A) as [|f t'] eqn:E; [reflexivity|].
-  assert (EA : A = rev t' ++ [f]) by (rewrite <- (rev_involutive A), E; reflexivity).
-  destruct ((f =? DOT) && (y =? DOT)) eqn:R2.
-  - exfalso. apply (Hc (rev t') f EA). lia.
-  - reflexivity.
+  intros A HA. unfold rule2. rewrite rev_app_distr. cbn [rev app]. rewrite !Z.eqb_refl. cbn [andb].
+  assert (E : match rev A with [] => true | g :: _ => g =? SEP end = true).
+  { destruct HA as [-> | [A' ->]]; [reflexivity|]. rewrite rev_app_distr. cbn. reflexivity. }
+  rewrite E. cbn [rev]. rewrite rev_involutive, <- app_assoc. reflexivity.
 Qed.
 
-Lemma ftxt_dd_sep : forall A, ftxt (A ++ [DOT; DOT; SEP]) = A ++ [DOT; DOT].
+Lemma rule2_keep_last : forall A y, y <> SEP -> rule2 (A ++ [y]) = A ++ [y].
 Proof.
-  intros A. unfold ftxt. rewrite rev_app_distr. cbn [rev app].
-  change ((DOT =? SEP) && (SEP =? DOT)) with false. cbv iota.
-  change ((DOT =? DOT) && (DOT =? DOT) && (SEP =? SEP)) with true. cbv iota.
-  cbn [rev]. rewrite rev_involutive, <- app_assoc. reflexivity.
+  intros A y Hy. unfold rule2. rewrite rev_app_distr. cbn [rev app].
+  destruct (rev A) as [|e [|f rest]]; [reflexivity|reflexivity|].
+  replace (y =? SEP) with false by lia. rewrite andb_false_r. reflexivity.
 Qed.
 
-Lemma ends_dotdot_snoc2 : forall l, ends_dotdot (l ++ [DOT; DOT]) = true.
+Lemma rule2_keep_sep : forall A y,
+  (forall A', A = A' ++ [DOT] -> y = DOT -> ~ (A' = [] \/ exists A'', A' = A'' ++ [SEP])) ->
+  rule2 (A ++ [y; SEP]) = A ++ [y; SEP].
 Proof.
-  induction l as [|a l IH]; [reflexivity|]. cbn [app]. destruct l as [|b l'].
-  - reflexivity.
-  - destruct l' as [|c l'']; [reflexivity|].
-    change (ends_dotdot (a :: (b :: c :: l'') ++ [DOT; DOT])) with (ends_dotdot ((b :: c :: l'') ++ [DOT; DOT])). exact IH.
+  intros A y Hc. unfold rule2. rewrite rev_app_distr. cbn [rev app].
+  destruct (rev A) as [|f rest] eqn:E; [reflexivity|].
+  assert (EA : A = rev rest ++ [f]) by (rewrite <- (rev_involutive A), E; reflexivity).
+  destruct ((f =? DOT) && (y =? DOT) && (SEP =? SEP) && match rest with [] => true | g :: _ => g =? SEP end) eqn:R2;
+    [|reflexivity].
+  exfalso. apply andb_true_iff in R2 as [R2 R3]. apply andb_true_iff in R2 as [R2 _]. apply andb_true_iff in R2 as [Rf Ry].
+  apply Z.eqb_eq in Rf, Ry. subst f. apply (Hc (rev rest) EA Ry).
+  destruct rest as [|g rest']; [left; reflexivity|right]. apply Z.eqb_eq in R3. subst g.
+  exists (rev rest'). reflexivity.
 Qed.
 
-Lemma name_single : forall y, nm [y] -> y <> DOT.
+Lemma rule3_ne : forall T, T <> [] -> rule3 T = T.
+Proof. intros T H. destruct T; [congruence|reflexivity]. Qed.
+
+(* a text ending in a name followed by a separator is left alone by rules 2 and 3 *)
+Lemma rules23_name_sep : forall P n, nm n -> (P = [] \/ exists P', P = P' ++ [SEP]) ->
+  rule3 (rule2 (P ++ n ++ [SEP])) = P ++ n ++ [SEP].
 Proof.
-  intros y (_ & H) ->. discriminate.
+  intros P n Hn HP. pose proof Hn as ((Hs & Hz & Hne) & Hin).
+  destruct (last_not_sep n Hs Hne) as (n' & y & En & Hy).
+  replace (P ++ n ++ [SEP]) with ((P ++ n') ++ [y; SEP]) by (rewrite En, <- !app_assoc; reflexivity).
+  rewrite rule2_keep_sep.
+  - apply rule3_ne. destruct (P ++ n'); discriminate.
+  - intros A' EA Hyd Hw. subst y.
+    destruct n' as [|c n''] using rev_ind.
+    + apply (name_single DOT); [|reflexivity]. cbn [app] in En. rewrite <- En. exact Hn.
+    + clear IHn''. rewrite app_assoc in EA. apply app_inj_tail in EA as [EA' Ec]. subst c.
+      destruct n'' as [|c2 n3] using rev_ind.
+      * (* n = ".." *) apply (nm_not_dd n Hn). rewrite En. reflexivity.
+      * clear IHn3. destruct Hw as [-> | [A'' ->]].
+        -- rewrite app_assoc in EA'. destruct (P ++ n3); discriminate.
+        -- rewrite app_assoc in EA'. apply app_inj_tail in EA' as [_ Ec2]. subst c2.
+           unfold sepfree in Hs. rewrite En in Hs. rewrite !Forall_app in Hs. destruct Hs as [[[_ Hs] _] _].
+           inversion Hs; subst. congruence.
 Qed.
 
-Lemma final_text : forall k D N tl, (k = 0 \/ k = 1) -> allDD D -> allnm N ->
-  Forall (fun n => ends_dotdot n = false) N -> (tl = [] \/ tl = [[]]) -> (k = 0 \/ D = []) ->
+Lemma final_text : forall k D N tl, (k = 0 \/ k = 1) -> allDD D -> allnm N -> tlok tl -> (k = 0 \/ D = []) ->
   ftxt (TX k (D ++ N ++ tl)) = render (k =? 1) (normal_elems (k =? 1) (D ++ N ++ tl)).
 Proof.
-  intros k D N tl Hk HD HN HE Htl HkD. rewrite machine_dn by assumption.
+  intros k D N tl Hk HD HN Htl HkD. rewrite machine_dn by assumption. unfold ftxt.
   destruct N as [|n0 N0].
   - (* no names *)
     cbn [app]. destruct D as [|d0 D0].
-    + cbn [app]. assert (ET : TX k tl = root_acc k).
-      { unfold TX. destruct Htl as [-> | ->]; cbn; apply app_nil_r. }
-      rewrite ET. destruct Hk as [-> | ->]; reflexivity.
+    + cbn [app]. destruct Hk as [-> | ->]; destruct Htl as [-> | [-> | ->]]; reflexivity.
     + destruct HkD as [-> | A]; [|discriminate]. change (0 =? 1) with false. cbv iota.
       destruct (exists_last (l := d0 :: D0) ltac:(discriminate)) as (D' & d & ED). rewrite ED in *.
       assert (d = DD) as -> by (apply Forall_app in HD as [_ A]; inversion A; assumption).
+      assert (HP : body D' = [] \/ exists P', body D' = P' ++ [SEP]).
+      { destruct D' as [|x D''] using rev_ind; [left; reflexivity|right]. rewrite body_snoc.
+        exists (body D'' ++ x). rewrite <- app_assoc. reflexivity. }
       destruct (D' ++ [DD]) eqn:E0; [destruct D'; discriminate|]. rewrite <- E0.
       unfold TX, render. change (root_acc 0) with (@nil Z). cbn [app].
-      destruct Htl as [-> | ->].
-      * rewrite app_nil_r, join_snoc. change DD with ([DOT] ++ [DOT]). rewrite app_assoc.
-        apply ftxt_keep1; [discriminate|]. intros A' e' EA. apply app_inj_tail in EA as [_ <-]. intros [A _]. discriminate.
+      assert (EJ : join_elems (D' ++ [DD]) = body D' ++ [DOT; DOT]) by apply join_snoc.
+      destruct Htl as [-> | [-> | ->]].
+      * rewrite app_nil_r, EJ.
+        replace (body D' ++ [DOT; DOT]) with ((body D' ++ [DOT]) ++ [DOT]) by (rewrite <- app_assoc; reflexivity).
+        rewrite rule1_keep.
+        -- rewrite rule2_keep_last by discriminate. apply rule3_ne. destruct (body D' ++ [DOT]); discriminate.
+        -- intros A' e' EA [He _]. apply app_inj_tail in EA as [_ <-]. discriminate.
       * rewrite join_snoc, app_nil_r, body_snoc. change (DD ++ [SEP]) with [DOT; DOT; SEP].
-        rewrite ftxt_dd_sep. rewrite join_snoc. reflexivity.
-  - (* some names: the text is already final *)
+        replace (body D' ++ [DOT; DOT; SEP]) with ((body D' ++ [DOT; DOT]) ++ [SEP]) by (rewrite <- app_assoc; reflexivity).
+        rewrite rule1_keep.
+        -- rewrite <- app_assoc. cbn [app]. rewrite rule2_fire by exact HP. rewrite EJ.
+           apply rule3_ne. destruct (body D'); discriminate.
+        -- intros A' e' _ [_ A]. discriminate.
+      * rewrite join_snoc, body_snoc. change (DD ++ [SEP]) with [DOT; DOT; SEP].
+        replace ((body D' ++ [DOT; DOT; SEP]) ++ [DOT]) with ((body D' ++ [DOT; DOT]) ++ [SEP; DOT])
+          by (rewrite <- !app_assoc; reflexivity).
+        rewrite rule1_fire. rewrite <- app_assoc. cbn [app]. rewrite rule2_fire by exact HP. rewrite EJ.
+        apply rule3_ne. destruct (body D'); discriminate.
+  - (* some names *)
     assert (ER : (if k =? 1 then [] else D) = D).
     { destruct HkD as [-> | ->]; [reflexivity|destruct (k =? 1); reflexivity]. }
     rewrite ER.
-    assert (EK : render (k =? 1) (D ++ (n0 :: N0) ++ tl) = TX k (D ++ (n0 :: N0) ++ tl)).
-    { unfold render, TX. destruct Hk as [-> | ->]; reflexivity. }
+    assert (EK : forall F, render (k =? 1) F = TX k F).
+    { intro F. unfold render, TX. destruct Hk as [-> | ->]; reflexivity. }
     rewrite EK.
     destruct (exists_last (l := n0 :: N0) ltac:(discriminate)) as (N' & n & EN). rewrite EN in *.
     assert (Hn : nm n) by (apply Forall_app in HN as [_ A]; inversion A; assumption).
-    assert (Hen : ends_dotdot n = false) by (apply Forall_app in HE as [_ A]; inversion A; assumption).
-    destruct Hn as ((Hs & Hz & Hne) & Hin).
-    destruct (last_not_sep n Hs Hne) as (n' & y & En & Hy).
-    destruct Htl as [-> | ->].
-    + rewrite app_nil_r. unfold TX. rewrite app_assoc, join_snoc. rewrite En. rewrite !app_assoc.
-      apply ftxt_keep1; [exact Hy|]. intros A' e EA [He Hyd]. subst e y.
-      destruct n' as [|c n''] using rev_ind.
-      * apply (name_single DOT); [|reflexivity]. cbn [app] in En. rewrite <- En. repeat split; assumption.
-      * clear IHn''. rewrite !app_assoc in EA. apply app_inj_tail in EA as [_ EA]. subst c.
-        unfold sepfree in Hs. rewrite En in Hs. rewrite !Forall_app in Hs. destruct Hs as [[_ Hs] _].
-        inversion Hs; subst. congruence.
-    + unfold TX. rewrite (app_assoc D), join_snoc, app_nil_r. rewrite (app_assoc D N' [n]), body_snoc. rewrite En.
-      replace (root_acc k ++ body (D ++ N') ++ (n' ++ [y]) ++ [SEP])
-        with ((root_acc k ++ body (D ++ N') ++ n') ++ [y; SEP]) by (rewrite <- !app_assoc; reflexivity).
-      apply ftxt_keep_sep; [exact Hy|]. intros A' f EA [Hf Hyd]. subst f y.
-      destruct n' as [|c n''] using rev_ind.
-      * apply (name_single DOT); [|reflexivity]. cbn [app] in En. rewrite <- En. repeat split; assumption.
-      * clear IHn''. rewrite !app_assoc in EA. apply app_inj_tail in EA as [_ EA]. subst c.
-        rewrite En in Hen. rewrite <- app_assoc in Hen. cbn [app] in Hen. rewrite ends_dotdot_snoc2 in Hen. discriminate.
-Qed.
-
-Lemma final_text_root_dd : forall d D N tl, allDD (d :: D) -> allnm N -> (tl = [] \/ tl = [[]]) ->
-  SEP :: join_elems (N ++ tl) = render true (normal_elems true ((d :: D) ++ N ++ tl)).
-Proof.
-  intros d D N tl HD HN Htl. rewrite machine_dn by assumption. destruct N as [|n0 N0].
-  - destruct Htl as [-> | ->]; reflexivity.
-  - reflexivity.
+    pose proof Hn as ((Hs & Hz & Hne) & Hin).
+    set (P := root_acc k ++ body (D ++ N')).
+    assert (HP : P = [] \/ exists P', P = P' ++ [SEP]) by (apply pre_body; exact Hk).
+    assert (ET0 : TX k (D ++ (N' ++ [n]) ++ []) = P ++ n).
+    { unfold TX, P. rewrite app_nil_r, app_assoc, join_snoc, <- app_assoc. reflexivity. }
+    assert (ET1 : TX k (D ++ (N' ++ [n]) ++ [[]]) = P ++ n ++ [SEP]).
+    { unfold TX, P. rewrite (app_assoc D), join_snoc, app_nil_r, (app_assoc D N' [n]), body_snoc. rewrite <- !app_assoc. reflexivity. }
+    destruct Htl as [-> | [-> | ->]]; cbn [tln].
+    + rewrite ET0. destruct (last_not_sep n Hs Hne) as (n' & y & En & Hy).
+      replace (P ++ n) with ((P ++ n') ++ [y]) by (rewrite En, <- app_assoc; reflexivity).
+      rewrite rule1_keep.
+      * rewrite rule2_keep_last by exact Hy. apply rule3_ne. destruct (P ++ n'); discriminate.
+      * intros A' e EA [He Hyd]. subst e y.
+        destruct n' as [|c n''] using rev_ind.
+        -- apply (name_single DOT); [|reflexivity]. cbn [app] in En. rewrite <- En. exact Hn.
+        -- clear IHn''. rewrite app_assoc in EA. apply app_inj_tail in EA as [_ EA]. subst c.
+           unfold sepfree in Hs. rewrite En in Hs. rewrite !Forall_app in Hs. destruct Hs as [[_ Hs] _].
+           inversion Hs; subst. congruence.
+    + rewrite ET1.
+      replace (P ++ n ++ [SEP]) with ((P ++ n) ++ [SEP]) by (rewrite <- app_assoc; reflexivity).
+      rewrite rule1_keep by (intros A' e _ [_ A]; discriminate).
+      rewrite <- app_assoc. apply rules23_name_sep; assumption.
+    + assert (ET2 : TX k (D ++ (N' ++ [n]) ++ [[DOT]]) = (P ++ n) ++ [SEP; DOT]).
+      { unfold TX, P. rewrite (app_assoc D), join_snoc, (app_assoc D N' [n]), body_snoc. rewrite <- !app_assoc. reflexivity. }
+      rewrite ET2, rule1_fire, ET1. rewrite <- app_assoc. apply rules23_name_sep; assumption.
 Qed.
